@@ -1,4 +1,4 @@
-import ArrProofs.Lemmas.C03Shape
+import ArrProofs.Lemmas.C03Common
 /-!
 # C03 — broadcasting follows the trailing-axis stretch rule, in shape and in values
 
@@ -15,6 +15,11 @@ Specification vocabulary
 * `bsrc s c` (model) — the source coordinate of target coordinate `c`: drop the added leading axes, use
   index 0 along the unit axes of `s`.
 * `a.get? c` — the element stored at the row-major position of `c`.
+* `fromEnd s k` — the `k`-th axis length of `s` counted from the trailing axis, a missing leading axis reads 1.
+* `maxLen shapes`, `cmax shapes k` — largest rank / largest `k`-th-from-the-end length in a list of shapes.
+
+Zero-length axes: the code refuses them on every aligned axis (`broadcast_zero_axis`,
+`broadcastArrays_zero_axis`); only an *added leading* target axis of `broadcast_to` may be zero (empty result).
 -/
 namespace ArrModel.C03
 open ArrModel Arr
@@ -65,8 +70,9 @@ theorem broadcastTo_total (a : Arr α) (t : List Nat) (hwf : a.WF) (hs : stretch
 /-! ## B. `broadcast_to`, rejected targets
 
 The statement leaves one region open: targets of the *same* element count that the source cannot be
-stretched to (e.g. `[2,3] → [3,2]`, `[6] → [2,3]`): there the code takes the `reshape` shortcut and
-succeeds.  No theorem is stated for that region. -/
+stretched to.  There the code answers an error when `is_broadcastable` sees a clash (e.g. `[2,3] → [3,2]`)
+and otherwise takes the `reshape` shortcut and succeeds (e.g. `[1,6] → [6,1]`).  No theorem is stated for
+that region (see the two examples at the end of the file). -/
 
 /-- **broadcast_to, rejection**: a target of a different element count that the source cannot be
 stretched to is refused with `BroadcastShapeMismatch` — never data, never a panic. -/
@@ -102,6 +108,28 @@ theorem broadcastTo_never_panics (a : Arr α) (t : List Nat) (hwf : a.WF) : a.br
     · rw [broadcastTo_reject a t hs hp]; simp
   · obtain ⟨r, hr, _⟩ := broadcastTo_stretch a t hwf hs
     rw [hr]; simp
+
+/-- on a well-formed array `broadcast_to` answers an array or `BroadcastShapeMismatch` — nothing else -/
+theorem broadcastTo_ok_or_reject (a : Arr α) (t : List Nat) (hwf : a.WF) :
+    (∃ r, a.broadcastTo t = .ok r) ∨ a.broadcastTo t = .err .BroadcastShapeMismatch := by
+  cases hs : stretchable a.shape t
+  · by_cases hp : a.shape.prod = t.prod
+    · unfold Arr.broadcastTo
+      split
+      · exact .inr rfl
+      · refine .inl ⟨⟨a.elems, t⟩, ?_⟩
+        unfold Arr.reshape Arr.new
+        rw [if_pos (by rw [← hp, hwf])]
+    · exact .inr (broadcastTo_reject a t hs hp)
+  · obtain ⟨r, hr, _⟩ := broadcastTo_stretch a t hwf hs
+    exact .inl ⟨r, hr⟩
+
+/-- a target that fails `is_broadcastable` against the source (a clash or a zero length on an aligned axis)
+is refused whatever the element counts -/
+theorem broadcastTo_reject_unbroadcastable (a : Arr α) (t : List Nat) (h : isBroadcastable a.shape t = false) :
+    a.broadcastTo t = .err .BroadcastShapeMismatch := by
+  unfold Arr.broadcastTo
+  rw [if_pos (by simp [h])]
 
 /-! ## E. `zip`: only the argument is stretched, to the receiver's shape -/
 
@@ -224,5 +252,175 @@ theorem broadcast_reject (a : Arr α) (b : Arr β) (k : Nat) (hka : k < a.shape.
       omega
   unfold Arr.broadcast
   rw [if_pos (by simp [hib])]
+
+/-- **broadcast, zero-length axes are refused**: when the common shape contains a zero-length axis the call
+answers `BroadcastShapeMismatch` (so the hypothesis `0 ∉ fs` of `broadcast_at` is exactly the success region) -/
+theorem broadcast_zero_axis (a : Arr α) (b : Arr β) (fs : List Nat) (ha : a.WF)
+    (hfs : broadcastShape a.shape b.shape = .ok fs) (hz : 0 ∈ fs) :
+    a.broadcast b = .err .BroadcastShapeMismatch := by
+  unfold Arr.broadcast
+  by_cases hib : isBroadcastable a.shape b.shape = true
+  · rw [if_neg (by simp [hib])]
+    obtain ⟨hl, hk⟩ := (broadcastShape_ok_iff _ _ fs).1 hfs
+    obtain ⟨k, hkl, hk0⟩ := (zero_mem_iff_fromEnd fs).1 hz
+    obtain ⟨hk1, hk2⟩ := hk k hkl
+    rw [hk0] at hk2
+    by_cases heq : a.shape = b.shape
+    · exfalso
+      have hlen := congrArg List.length heq
+      have := isBroadcastable_nonzero _ _ hib k (by omega) (by omega)
+      rw [← heq] at hk2
+      split at hk2 <;> omega
+    · rw [if_neg heq, hfs]
+      simp only [Res.bind_ok]
+      by_cases hd : fromEnd a.shape k = 1
+      · rw [if_pos hd] at hk2
+        have hkb : k < b.shape.length := lt_length_of_fromEnd_ne_one _ k (by omega)
+        have hbf : b.broadcastTo fs = .err .BroadcastShapeMismatch :=
+          broadcastTo_reject_unbroadcastable b fs
+            (isBroadcastable_false_of_zero _ _ k hkb hkl (.inl hk2.symm))
+        rcases broadcastTo_ok_or_reject a fs ha with ⟨a', h⟩ | h
+        · rw [h, hbf]; rfl
+        · rw [h]; rfl
+      · rw [if_neg hd] at hk2
+        have hka : k < a.shape.length := lt_length_of_fromEnd_ne_one _ k hd
+        rw [broadcastTo_reject_unbroadcastable a fs
+          (isBroadcastable_false_of_zero _ _ k hka hkl (.inl hk2.symm))]
+        rfl
+  · rw [if_pos (by simpa using hib)]
+
+/-! ## F. `broadcast_arrays`
+
+`maxLen shapes` is the largest rank, `cmax shapes k` the largest `k`-th-from-the-end axis length
+(both are left folds of `max`, see `cmax_spec`). -/
+
+/-- `cmax` is the maximum: an upper bound of every member's axis, and attained (or 0 for no shapes) -/
+theorem cmax_spec (shapes : List (List Nat)) (k : Nat) :
+    (∀ s ∈ shapes, fromEnd s k ≤ cmax shapes k) ∧
+    (cmax shapes k = 0 ∨ ∃ s ∈ shapes, cmax shapes k = fromEnd s k) := by
+  refine ⟨fun s hs => fromEnd_le_cmax shapes s hs k, ?_⟩
+  rcases foldl_max_mem (shapes.map (fun s => fromEnd s k)) 0 with h | h
+  · exact .inl h
+  · obtain ⟨s, hs, hs'⟩ := List.mem_map.1 h
+    exact .inr ⟨s, hs, hs'.symm⟩
+
+/-- **common_broadcast_shape, characterisation**: the call answers `cs` exactly when `cs` has the largest rank,
+each axis (from the end) is the largest aligned length, and every member's aligned length equals that maximum
+or is one (or the maximum is one). -/
+theorem commonBroadcastShape_spec (shapes : List (List Nat)) (cs : List Nat) :
+    commonBroadcastShape shapes = .ok cs ↔
+      (cs.length = maxLen shapes ∧ ∀ k, k < maxLen shapes → fromEnd cs k = cmax shapes k) ∧
+      ∀ s ∈ shapes, ∀ k, k < maxLen shapes →
+        (fromEnd s k = cmax shapes k ∨ fromEnd s k = 1 ∨ cmax shapes k = 1) := by
+  rw [commonBroadcastShape_ok_iff]
+  apply and_congr_left'
+  constructor
+  · rintro rfl
+    exact ⟨by rw [List.length_reverse, commonRev_length], fun k hk => fromEnd_commonRev_reverse shapes k hk⟩
+  · rintro ⟨h1, h2⟩
+    refine eq_of_fromEnd_eq _ _ (by rw [h1, List.length_reverse, commonRev_length]) (fun k hk => ?_)
+    rw [h2 k (by omega), fromEnd_commonRev_reverse shapes k (by omega)]
+
+/-- member shapes that disagree on an aligned axis where neither length is one have no common shape -/
+theorem commonBroadcastShape_reject (shapes : List (List Nat)) (s t : List Nat) (hs : s ∈ shapes) (ht : t ∈ shapes)
+    (k : Nat) (h : fromEnd s k ≠ fromEnd t k ∧ fromEnd s k ≠ 1 ∧ fromEnd t k ≠ 1) :
+    commonBroadcastShape shapes = .err .BroadcastShapeMismatch :=
+  commonBroadcastShape_clash shapes s t hs ht k h
+
+/-- **broadcast_arrays, values and shapes**: well-formed arrays without zero-length axes whose shapes have a
+common shape `cs` are all broadcast to exactly `cs`; the `i`-th result is the `i`-th input stretched, value by
+value through `bsrc`. -/
+theorem broadcastArrays_spec (arrs : List (Arr α)) (cs : List Nat)
+    (hwf : ∀ a ∈ arrs, a.WF) (hz : ∀ a ∈ arrs, 0 ∉ a.shape)
+    (hcs : commonBroadcastShape (arrs.map (·.shape)) = .ok cs) :
+    ∃ rs, Arr.broadcastArrays arrs = .ok rs ∧ rs.length = arrs.length ∧
+      ∀ (i : Nat) a, arrs[i]? = some a → ∃ r, rs[i]? = some r ∧ r.shape = cs ∧ r.WF ∧
+        ∀ c, inRange cs c = true → r.get? c = a.get? (bsrc a.shape c) := by
+  have hst : ∀ a ∈ arrs, stretchable a.shape cs = true := fun a ha =>
+    stretchable_of_common _ cs hcs a.shape (List.mem_map.2 ⟨a, ha, rfl⟩) (hz a ha)
+  obtain ⟨rs, hrs⟩ := sequence_map_ok (fun a : Arr α => a.broadcastTo cs) arrs (fun a ha => by
+    obtain ⟨r, hr, _⟩ := broadcastTo_stretch a cs (hwf a ha) (hst a ha)
+    exact ⟨r, hr⟩)
+  obtain ⟨hlen, hval⟩ := (sequence_map_ok_iff _ _ _).1 hrs
+  refine ⟨rs, ?_, hlen, fun i a hia => ?_⟩
+  · unfold Arr.broadcastArrays
+    rw [hcs]; exact hrs
+  · obtain ⟨r, hr1, hr2⟩ := hval i a hia
+    have ha := List.mem_of_getElem? hia
+    obtain ⟨r', hr', h1, h2, h3⟩ := broadcastTo_stretch a cs (hwf a ha) (hst a ha)
+    have e : r' = r := by rw [hr'] at hr2; exact Res.ok.inj hr2
+    rw [← e] at hr1
+    exact ⟨r', hr1, h1, h2, h3⟩
+
+/-- **broadcast_arrays, rejection**: two members that disagree on an aligned axis where neither length is one
+make the whole call fail with `BroadcastShapeMismatch` -/
+theorem broadcastArrays_reject (arrs : List (Arr α)) (a b : Arr α) (ha : a ∈ arrs) (hb : b ∈ arrs) (k : Nat)
+    (h : fromEnd a.shape k ≠ fromEnd b.shape k ∧ fromEnd a.shape k ≠ 1 ∧ fromEnd b.shape k ≠ 1) :
+    Arr.broadcastArrays arrs = .err .BroadcastShapeMismatch := by
+  unfold Arr.broadcastArrays
+  rw [commonBroadcastShape_clash (arrs.map (·.shape)) a.shape b.shape
+    (List.mem_map.2 ⟨a, ha, rfl⟩) (List.mem_map.2 ⟨b, hb, rfl⟩) k h]
+  rfl
+
+/-- **broadcast_arrays, zero-length axes are refused** (so the hypothesis `0 ∉ a.shape` of
+`broadcastArrays_spec` is necessary) -/
+theorem broadcastArrays_zero_axis (arrs : List (Arr α)) (hwf : ∀ a ∈ arrs, a.WF) (a : Arr α) (ha : a ∈ arrs)
+    (hz : 0 ∈ a.shape) : Arr.broadcastArrays arrs = .err .BroadcastShapeMismatch := by
+  unfold Arr.broadcastArrays
+  rcases commonBroadcastShape_ok_or_err (arrs.map (·.shape)) with ⟨cs, hcs⟩ | hcs
+  · rw [hcs]
+    simp only [Res.bind_ok]
+    rcases sequence_map_ok_or_err (fun x : Arr α => x.broadcastTo cs) arrs .BroadcastShapeMismatch
+      (fun x hx => broadcastTo_ok_or_reject x cs (hwf x hx)) with ⟨rs, hrs⟩ | hrs
+    · exfalso
+      obtain ⟨_, hval⟩ := (sequence_map_ok_iff _ _ _).1 hrs
+      obtain ⟨i, hi⟩ := List.getElem?_of_mem ha
+      obtain ⟨r, _, hr⟩ := hval i a hi
+      obtain ⟨k, hk, hk0⟩ := (zero_mem_iff_fromEnd a.shape).1 hz
+      have hlen : cs.length = maxLen (arrs.map (·.shape)) := ((commonBroadcastShape_spec _ cs).1 hcs).1.1
+      have hle := length_le_maxLen (arrs.map (·.shape)) a.shape (List.mem_map.2 ⟨a, ha, rfl⟩)
+      rw [broadcastTo_reject_unbroadcastable a cs
+        (isBroadcastable_false_of_zero _ _ k hk (by omega) (.inl hk0))] at hr
+      cases hr
+    · exact hrs
+  · rw [hcs]; rfl
+
+/-! ### non-vacuity: concrete instances meeting the hypotheses, and the conclusions observed on them -/
+example : (⟨List.range 6, [2, 1, 3]⟩ : Arr Nat).WF ∧ stretchable [2, 1, 3] [2, 2, 3] = true := by decide
+example : (⟨List.range 6, [2, 1, 3]⟩ : Arr Nat).broadcastTo [2, 2, 3]
+    = .ok ⟨[0, 1, 2, 0, 1, 2, 3, 4, 5, 3, 4, 5], [2, 2, 3]⟩ := by decide
+example : bsrc [2, 1, 3] [1, 1, 2] = [1, 0, 2] ∧ bsrc [3] [1, 1, 2] = [2] ∧ bsrc [4, 1] [1, 3, 2] = [3, 0] := by decide
+-- the equal-count shortcut arm (added leading unit axes) and a zero-length leading target axis
+example : stretchable [2, 3] [1, 1, 2, 3] = true ∧
+    (⟨List.range 6, [2, 3]⟩ : Arr Nat).broadcastTo [1, 1, 2, 3] = .ok ⟨List.range 6, [1, 1, 2, 3]⟩ := by decide
+example : stretchable [3] [0, 3] = true ∧ (⟨[7, 8, 9], [3]⟩ : Arr Nat).broadcastTo [0, 3] = .ok ⟨[], [0, 3]⟩ := by decide
+-- rejection (B): not stretchable, different count
+example : stretchable [2, 3] [3, 3] = false ∧ [2, 3].prod ≠ [3, 3].prod ∧
+    (⟨List.range 6, [2, 3]⟩ : Arr Nat).broadcastTo [3, 3] = .err .BroadcastShapeMismatch := by decide
+example : stretchable [2, 2, 3] [3] = false ∧
+    (⟨List.range 12, [2, 2, 3]⟩ : Arr Nat).broadcastTo [3] = .err .BroadcastShapeMismatch := by decide
+-- the region the statement leaves open: same count, not stretchable — the code reshapes
+example : stretchable [1, 6] [6, 1] = false ∧
+    (⟨List.range 6, [1, 6]⟩ : Arr Nat).broadcastTo [6, 1] = .ok ⟨List.range 6, [6, 1]⟩ := by decide
+example : stretchable [2, 3] [3, 2] = false ∧
+    (⟨List.range 6, [2, 3]⟩ : Arr Nat).broadcastTo [3, 2] = .err .BroadcastShapeMismatch := by decide
+-- C / D: shapes [2,1,3] and [4,1]
+example : broadcastShape [2, 1, 3] [4, 1] = .ok [2, 4, 3] ∧ 0 ∉ [2, 4, 3] ∧
+    fromEnd [2, 1, 3] 1 = 1 ∧ fromEnd [4, 1] 1 = 4 ∧ fromEnd [4, 1] 2 = 1 := by decide
+example : ((⟨[0, 1, 2], [3]⟩ : Arr Nat).broadcast (⟨[10, 20], [2, 1]⟩ : Arr Nat))
+    = .ok ⟨[(0, 10), (1, 10), (2, 10), (0, 20), (1, 20), (2, 20)], [2, 3]⟩ := by decide
+example : fromEnd [2, 3] 0 ≠ fromEnd [2] 0 ∧ fromEnd [2, 3] 0 ≠ 1 ∧ fromEnd [2] 0 ≠ 1 ∧
+    ((⟨List.range 6, [2, 3]⟩ : Arr Nat).broadcast (⟨[1, 2], [2]⟩ : Arr Nat)) = .err .BroadcastShapeMismatch := by decide
+-- E: zip stretches only the argument
+example : ((⟨List.range 6, [2, 3]⟩ : Arr Nat).zip (⟨[7], [1]⟩ : Arr Nat))
+    = .ok ⟨[(0, 7), (1, 7), (2, 7), (3, 7), (4, 7), (5, 7)], [2, 3]⟩ := by decide
+example : stretchable [2, 3] [1] = false ∧
+    ((⟨[7], [1]⟩ : Arr Nat).zip (⟨List.range 6, [2, 3]⟩ : Arr Nat)) = .err .BroadcastShapeMismatch := by decide
+-- F
+example : commonBroadcastShape [[2, 1, 3], [4, 1], [3]] = .ok [2, 4, 3] ∧ maxLen [[2, 1, 3], [4, 1], [3]] = 3 ∧
+    cmax [[2, 1, 3], [4, 1], [3]] 1 = 4 := by decide
+example : Arr.broadcastArrays [(⟨[1, 2], [2, 1]⟩ : Arr Nat), ⟨[5, 6, 7], [3]⟩]
+    = .ok [⟨[1, 1, 1, 2, 2, 2], [2, 3]⟩, ⟨[5, 6, 7, 5, 6, 7], [2, 3]⟩] := by decide
+example : Arr.broadcastArrays [(⟨[1, 2], [2]⟩ : Arr Nat), ⟨[5, 6, 7], [3]⟩] = .err .BroadcastShapeMismatch := by decide
 
 end ArrModel.C03
